@@ -1,16 +1,23 @@
 // ===================================================================================================
 // take(max), profile T (C19): deliveries racing into take from different threads.
-// The body of the upstream handler is extracted from /repo/src/take.rs with an interference point
-// `interfere(h, g, c)` in front of every statement that touches the shared cells (sequentially
-// consistent interleaving at statement = shared-access granularity; a `fetch_update` is one atomic
-// step).  `interfere` is the only assumed function: other threads running the same handler preserve the
-// invariant and only ever increase the counter (rely); this thread's steps must do the same (guarantee),
-// which is exactly the precondition of the next `interfere`.
-// Scope: the Data path; the sink is passive here (no disposal racing with the deliveries), and the
-// "terminated exactly once" half of C19 is not covered by this profile (see MANIFEST level_note).
+//
+// The body of the upstream handler is extracted from /repo/src/take.rs.  The weaver puts, mechanically,
+//   interfere(h, g, c);   in front of every statement that makes a shared access (at most one per statement,
+//                         checked by the weaver; a `fetch_update` / `rcu` is one atomic step), and
+//   after_step(h, g, c);  right after it: the ghost step that belongs to the atomic step just taken.  It is a
+//                         function of the exec-heap delta only (not of the statement's text).
+// Reasoning is rely/guarantee with auxiliary variables (Owicki-Gries / Jones):
+//   * `interfere` is the only assumption: any number of atomic steps of the other threads happen there; they
+//     preserve `inv_t` and satisfy `rely`.  Every delivery to the sink / upstream is an interference point too.
+//   * the guarantee is checked on every step of this thread: the precondition of each interference point
+//     demands `inv_t` and `guar(state at the previous interference point, state now)`.
+//   * tickets: `tix` counts, over all threads, the items counted but not yet delivered; `mine` is this thread's
+//     share.  Threads change `tix` only together with their own share (guar: tix - mine constant), so
+//     tix = sum of all shares is preserved by everyone and `mine <= tix` is stable under interference.
+// Scope: the Data path (racing deliveries); the sink is passive (no disposal racing with the deliveries).
 // ===================================================================================================
 //@op take
-//@properties C19
+//@properties C19 C20
 //@interfere
 //@skip ctor apply take sink_talkback
 //@heap Heap
@@ -18,8 +25,20 @@
 //@celltp
 //@nogate sink source_talkback
 
-pub struct G<T> { pub sent: Seq<T> }
+pub struct Gs {
+    pub delivered: nat,      // data delivered to the sink, by all threads
+    pub tix: nat,            // items counted (counter incremented) but not delivered yet, all threads
+    pub mine: nat,           // .. this thread's share
+    pub term_tix: nat,       // the right to complete the sink (held by whoever moved the counter to max)
+    pub my_term: nat,
+    pub terminated: nat,     // completions take itself sent to the sink
+    pub up_tix: nat,         // the right to terminate the upstream
+    pub my_up: nat,
+    pub up_terminated: nat,  // terminations take itself sent upstream
+}
+pub struct G<T> { pub gs: Gs, pub snap: Heap, pub gsnap: Gs, pub dsnap: Heap, pub my_sent: Seq<T> }
 pub struct Cap { pub max: usize }
+#[derive(Clone, Copy)]
 pub struct Heap { pub taken: usize, pub end: bool, pub source_talkback: Option<UpTb>, pub alloc_taken: bool, pub alloc_end: bool, pub alloc_source_talkback: bool }
 #[derive(Clone, Copy)] pub struct UpTb {}
 #[derive(Clone, Copy)] pub struct SinkH {}
@@ -29,53 +48,112 @@ pub struct Heap { pub taken: usize, pub end: bool, pub source_talkback: Option<U
 //@cell source_talkback: Option<UpTb> = swap_option
 
 /// the invariant every atomic step of every thread preserves
-pub open spec fn inv_t(h: Heap, c: Cap) -> bool {
-    &&& h.taken <= c.max
+pub open spec fn inv_t(h: Heap, s: Gs, c: Cap) -> bool {
+    &&& s.delivered + s.tix <= h.taken <= c.max
+    &&& s.mine <= s.tix && s.my_term <= s.term_tix && s.my_up <= s.up_tix
+    &&& s.term_tix + s.terminated <= (if h.taken == c.max { 1nat } else { 0nat })
+    &&& s.up_tix + s.up_terminated <= (if h.taken == c.max { 1nat } else { 0nat })
     &&& h.source_talkback is Some
+    &&& (h.end ==> h.taken == c.max)   // (passive sink) only the holder of the termination ticket sets `end`
 }
 /// what the other threads may do between two of this thread's steps
-pub open spec fn rely(a: Heap, b: Heap) -> bool {
-    &&& b.taken >= a.taken
-    &&& (a.end ==> b.end)
-    &&& b.source_talkback == a.source_talkback
+pub open spec fn rely(a: Heap, sa: Gs, b: Heap, sb: Gs) -> bool {
+    &&& b.taken >= a.taken && (a.end ==> b.end) && b.source_talkback == a.source_talkback
+    &&& sb.mine == sa.mine && sb.my_term == sa.my_term && sb.my_up == sa.my_up
+    &&& sb.delivered >= sa.delivered && sb.terminated >= sa.terminated && sb.up_terminated >= sa.up_terminated
+    &&& (sa.my_term >= 1 ==> b.end == a.end)
 }
+/// what one step of this thread may do (it is what the others rely on)
+pub open spec fn guar(a: Heap, sa: Gs, b: Heap, sb: Gs) -> bool {
+    &&& b.taken >= a.taken && (a.end ==> b.end) && b.source_talkback == a.source_talkback
+    &&& sb.tix - sb.mine == sa.tix - sa.mine && sb.term_tix - sb.my_term == sa.term_tix - sa.my_term && sb.up_tix - sb.my_up == sa.up_tix - sa.my_up
+    &&& sb.delivered >= sa.delivered && sb.terminated >= sa.terminated && sb.up_terminated >= sa.up_terminated
+    &&& (!a.end && b.end ==> sb.my_term >= 1)
+}
+/// the ghost step attached to an atomic step of this thread: counting an item hands out a delivery ticket, and
+/// the step that moves the counter to max also hands out the two termination tickets
+pub open spec fn step_ghost(o: Heap, n: Heap, s: Gs, c: Cap) -> Gs {
+    if n.taken == o.taken + 1 {
+        let s1 = Gs { tix: s.tix + 1, mine: s.mine + 1, ..s };
+        if n.taken == c.max { Gs { term_tix: s1.term_tix + 1, my_term: s1.my_term + 1, up_tix: s1.up_tix + 1, my_up: s1.my_up + 1, ..s1 } } else { s1 }
+    } else { s }
+}
+pub open spec fn synced<T>(h: Heap, g: G<T>) -> bool { g.snap == h && g.dsnap == h && g.gsnap == g.gs }
+
 /// any number of atomic steps of the other threads
 #[verifier::external_body]
 pub fn interfere<T>(h: &mut Heap, g: &mut Ghost<G<T>>, c: &Cap)
     requires
-        inv_t(*old(h), *c), /* @C19 the counter never exceeds n, whatever the other deliveries did in between */
+        inv_t(*old(h), old(g)@.gs, *c), /* @C19 at most n items are counted or delivered, and the termination tickets are unique, whatever the other deliveries did in between */
+        guar(old(g)@.snap, old(g)@.gsnap, *old(h), old(g)@.gs), /* @C19 a step of this thread only increases the counter and only moves its own tickets */
     ensures
-        inv_t(*final(h), *c), rely(*old(h), *final(h)),
+        inv_t(*final(h), final(g)@.gs, *c), rely(*old(h), old(g)@.gs, *final(h), final(g)@.gs),
+        synced(*final(h), final(g)@), final(g)@.my_sent == old(g)@.my_sent,
 { unimplemented!() }
 
+/// the ghost step of the atomic step this thread just took
+pub fn after_step<T>(h: &Heap, g: &mut Ghost<G<T>>, c: &Cap)
+    ensures final(g)@ == (G { gs: step_ghost(old(g)@.dsnap, *h, old(g)@.gs, *c), dsnap: *h, ..old(g)@ }),
+{
+    proof { g@ = G { gs: step_ghost(g@.dsnap, *h, g@.gs, *c), dsnap: *h, ..g@ }; }
+}
+
+pub open spec fn sink_effect<T>(s: Gs, m: Message<T, Tok_sink_talkback>) -> Gs {
+    match m {
+        Message::Data(_) => Gs { delivered: s.delivered + 1, tix: (s.tix - 1) as nat, mine: (s.mine - 1) as nat, ..s },
+        Message::Terminate => Gs { terminated: s.terminated + 1, term_tix: (s.term_tix - 1) as nat, my_term: (s.my_term - 1) as nat, ..s },
+        _ => s,
+    }
+}
 impl SinkH {
     /// a delivery to the sink takes time: the other threads keep running
     #[verifier::external_body]
     pub fn call<T>(&self, h: &mut Heap, g: &mut Ghost<G<T>>, c: &Cap, m: Message<T, Tok_sink_talkback>)
         requires
-            inv_t(*old(h), *c), /* @C19 the counter never exceeds n, whatever the other deliveries did in between */
+            inv_t(*old(h), old(g)@.gs, *c), /* @C19 at most n items are counted or delivered, and the termination tickets are unique, whatever the other deliveries did in between */
+            guar(old(g)@.snap, old(g)@.gsnap, *old(h), old(g)@.gs), /* @C19 a step of this thread only increases the counter and only moves its own tickets */
+            m is Data ==> old(g)@.gs.mine >= 1, /* @C19 a datum goes to the sink only for an item this thread counted below the limit */
+            m is Terminate ==> old(g)@.gs.my_term >= 1, /* @C19 only the delivery that moved the counter to n completes the sink */
         ensures
-            inv_t(*final(h), *c), rely(*old(h), *final(h)),
+            inv_t(*final(h), final(g)@.gs, *c), rely(*old(h), sink_effect(old(g)@.gs, m), *final(h), final(g)@.gs),
+            synced(*final(h), final(g)@),
+            final(g)@.my_sent == (if m is Data { old(g)@.my_sent.push(m->Data_0) } else { old(g)@.my_sent }),
     { unimplemented!() }
 }
 impl UpTb {
     #[verifier::external_body]
     pub fn call<T>(&self, h: &mut Heap, g: &mut Ghost<G<T>>, c: &Cap, m: Message<Never, Never>)
         requires
-            inv_t(*old(h), *c), /* @C19 the counter never exceeds n, whatever the other deliveries did in between */
+            inv_t(*old(h), old(g)@.gs, *c), /* @C19 at most n items are counted or delivered, and the termination tickets are unique, whatever the other deliveries did in between */
+            guar(old(g)@.snap, old(g)@.gsnap, *old(h), old(g)@.gs), /* @C19 a step of this thread only increases the counter and only moves its own tickets */
+            m is Terminate || m is Error ==> old(g)@.gs.my_up >= 1, /* @C19 only the delivery that moved the counter to n terminates the upstream */
         ensures
-            inv_t(*final(h), *c), rely(*old(h), *final(h)),
+            inv_t(*final(h), final(g)@.gs, *c),
+            rely(*old(h), (if m is Terminate || m is Error { Gs { up_terminated: old(g)@.gs.up_terminated + 1, up_tix: (old(g)@.gs.up_tix - 1) as nat, my_up: (old(g)@.gs.my_up - 1) as nat, ..old(g)@.gs } } else { old(g)@.gs }), *final(h), final(g)@.gs),
+            synced(*final(h), final(g)@), final(g)@.my_sent == old(g)@.my_sent,
     { unimplemented!() }
 }
 
-/// one racing delivery (or end) from upstream, on some thread
+/// C19 as a consequence of the invariant: at most n data reach the sink, and take completes its sink and
+/// terminates its upstream at most once each
+pub proof fn lemma_c19(h: Heap, s: Gs, c: Cap)
+    requires inv_t(h, s, c),
+    ensures s.delivered <= c.max, s.terminated <= 1, s.up_terminated <= 1,
+{}
+
+/// one racing delivery from upstream, on some thread
 pub fn take__source_talkback_T<T>(h: &mut Heap, g: &mut Ghost<G<T>>, c: &Cap, message: Message<T, UpTb>)
     requires
-        inv_t(*old(h), *c),
-        message is Data || message is Terminate || message is Error,
+        inv_t(*old(h), old(g)@.gs, *c), synced(*old(h), old(g)@),
+        message is Data,
+        old(g)@.gs.mine == 0 && old(g)@.gs.my_term == 0 && old(g)@.gs.my_up == 0,
+        old(g)@.my_sent.len() == 0,
     ensures
-        inv_t(*final(h), *c), /* @C19 the counter never exceeds n, whatever the other deliveries did in between */
-        rely(*old(h), *final(h)), /* @C19 a delivery only ever increases the counter */
+        inv_t(*final(h), final(g)@.gs, *c), /* @C19 at most n items are counted or delivered, and the termination tickets are unique, whatever the other deliveries did in between */
+        guar(final(g)@.snap, final(g)@.gsnap, *final(h), final(g)@.gs), /* @C19 a step of this thread only increases the counter and only moves its own tickets */
+        final(g)@.gs.mine == 0, /* @C19 an item that was counted is delivered */
+        final(g)@.gs.my_term == 0 && final(g)@.gs.my_up == 0, /* @C19 the delivery that moved the counter to n terminates both sides, unless the sink had disposed */
+        final(g)@.my_sent.len() <= 1 && (final(g)@.my_sent.len() == 1 ==> final(g)@.my_sent[0] == message->Data_0), /* @C19 a delivery forwards its own datum at most once */
 {
     let max = c.max; let taken = Cell_taken {}; let end = Cell_end {}; let source_talkback = Cell_source_talkback {};
     let sink = SinkH {}; let talkback = Tok_sink_talkback {};
